@@ -71,6 +71,21 @@ def generate(seed, tier):
                 sd = [{'k': l, 'v': {'t': 'int', 'i': 0}} for l in labs if l not in (kpos[0][0], kspec[0][0])]
                 sd.append({'k': kpos[0][0], 'v': {'t': 'list', 'l': [0, kpos[0][1] - 1], 'as': 'list'}})
                 sd.append({'k': kspec[0][0], 'v': {'t': 'slice', 'a': 0, 'b': 2, 's': None}})
+        elif mode == 5:                 # a long dimension with an IRREGULAR index list (near-regular patterns included)
+            side = rng.choice(['pos', 'spec'])
+            long_size = rng.choice([7, 8, 9])
+            pre = 'P' if side == 'pos' else 'S'
+            ds[side] = {'sizes': [long_size, 2], 'rate': rng.choice([[0, 1], [1, 0]]), 'labels': [pre + 'X', pre + 'Y'],
+                        'units': ['ua', 'ub'], 'values': [list(range(0, 4 * long_size, 4)), [3, 9]]}
+            other = 'spec' if side == 'pos' else 'pos'
+            if gen.n_points(ds[other]) > 12:
+                ds[other] = {'sizes': [3], 'rate': [0], 'labels': [('S' if side == 'pos' else 'P') + 'X'], 'units': ['uc'],
+                             'values': [[1, 2, 7]]}
+            tricky = [[0, 2, 3], [0, 2, 3, 6], [0, 2, 5, 6], [1, 3, 4], [0, 1, 3, 6], [0, 3, 4, 6], [1, 2, 5, 6]]
+            lst = rng.choice(tricky) if rng.random() < 0.7 else sorted(rng.sample(range(long_size), rng.randint(3, 5)))
+            sd = [{'k': pre + 'X', 'v': {'t': 'list', 'l': lst, 'as': rng.choice(['list', 'array'])}}]
+            if rng.random() < 0.3:
+                sd.append({'k': pre + 'Y', 'v': {'t': 'int', 'i': rng.randrange(2)}})
         elif mode == 4:                 # a single row or column
             side = rng.choice(['pos', 'spec'])
             sd = [x for x in sd if x['k'] not in ds[side]['labels']] + \
